@@ -1,0 +1,31 @@
+"""
+Verification hooks.
+
+Instrumentation points in this package call emit() to report internal events (cache accesses, ...) to an external
+conformance checker. This is a no-op unless the environment variable EXPLORERSCRIPT_VERIF is set to "1" AND a sink was
+installed with add_sink(); nothing in the package depends on it.
+"""
+
+from __future__ import annotations
+
+import os
+from typing import Any, Callable
+
+ENABLED = os.environ.get("EXPLORERSCRIPT_VERIF") == "1"
+
+_sinks: list[Callable[[tuple[Any, ...]], None]] = []
+
+
+def add_sink(sink: Callable[[tuple[Any, ...]], None]) -> None:
+    _sinks.append(sink)
+
+
+def remove_sink(sink: Callable[[tuple[Any, ...]], None]) -> None:
+    if sink in _sinks:
+        _sinks.remove(sink)
+
+
+def emit(*event: Any) -> None:
+    if ENABLED:
+        for sink in _sinks:
+            sink(event)
